@@ -304,6 +304,54 @@ def check_resize_after(P, ctx):
     ctx.floor(rule, 3)
 
 
+def check_pending_trust(P, ctx):
+    """The sweep's pending list names addresses that were taken out of the registry *by the sweep that is running*.  A
+    deletion may skip the registry lookup on the strength of a pending-list hit only if the list is emptied when that sweep
+    ends; otherwise a stale address (reclaimed earlier, reused by the allocator for a new registered object) makes del skip
+    the removal and the object stays registered although it was deleted."""
+    rule = 'C17.pending-list-trust'
+    rp = P.fn('GC_Rem_Ptr')
+    g = P.cfg(rp)
+    ctx.fn(rp)
+    N = util.Norm(P, rp)
+    reads_entries = [n['id'] for n in g.live() if n['expr'] is not None and any(util.mentions_field(x, 'entries') for x in [n['expr']])]
+    bypass = []
+    for n in g.live():
+        if n['kind'] != 'cond':
+            continue
+        c = N.canon(n['expr'])
+        if not (c[0] == 'bin' and c[1] in ('==', '!=') and util.mentions_field(c, 'freelist') and util.mentions(c, lambda x: x == ('param', 1))):
+            continue
+        hit = (c[1] == '==')
+        for (v, l) in n['succ']:
+            if l == hit and g.exit in g.reach_from(v, cut_nodes=reads_entries):
+                bypass.append(n)
+    sw = P.fn('GC_Sweep')
+    gs = P.cfg(sw)
+    ctx.fn(sw)
+    Ns = util.Norm(P, sw)
+    resets, appends = [], []
+    for n in gs.live():
+        if n['expr'] is None:
+            continue
+        for ev in util.expr_events(n['expr'], n):
+            if ev['t'] != 'write':
+                continue
+            lhs = Ns.canon(ev['lhs'])
+            if lhs == ('arrow', ('param', 0), 'freenum') and ev['op'] == '=' and util.const_int(ev['rhs']) == 0:
+                resets.append(n)
+            if lhs[0] == 'idx' and lhs[1] == ('arrow', ('param', 0), 'freelist') and ev['rhs'] is not None and not ir.is_null(ev['rhs']):
+                appends.append(n)
+    final = [r for r in resets if not any(a['id'] in gs.reach_from(r['id']) for a in appends)]      # resets after the last append
+    emptied = bool(appends) and bool(final) and all(gs.must_pass(gs.exit, [r['id'] for r in final], start=a['id']) for a in appends)
+    ok = (not bypass) or emptied
+    ctx.check(ok, rule, 'GC_Rem_Ptr/GC_Sweep', site(rp, bypass[0]['line'] if bypass else None),
+              'a deletion skips the registry lookup after a pending-list hit only if every sweep empties the pending list before it returns '
+              '(lookup skipped: %s; list emptied on every path after an append: %s)' % ('yes' if bypass else 'no', 'yes' if emptied else 'no'),
+              ['pending-list hit at %s reaches the function exit without reading the registry' % g.describe(bypass[0])] if bypass else None)
+    ctx.floor(rule, 1)
+
+
 def run(ctx, load):
     P = load(UNITS, 'default')
     ctx.stats['units'] = set(UNITS)
@@ -330,6 +378,9 @@ def run(ctx, load):
         o['rule'] = 'C17.sweep-compaction'
     ctx.floors.pop(('C06.sweep-once', ctx.config), None)
     ctx.floor('C17.sweep-compaction', 6)
+    check_pending_trust(P, ctx)
+    from .rules_c06 import check_finalise_unregisters
+    check_finalise_unregisters(P, ctx, 'C17.finalised-not-registered')
 
 
 EXPLANATION = (
